@@ -131,25 +131,23 @@ def check_python(report):
     m = pm()
     fi = m.func("gapic.schema.wrappers.Method.field_headers")
     p = fi.module.path
-    verbs = [n for n in ast.walk(fi.node) if isinstance(n, ast.Assign) and isinstance(n.value, ast.List) and len(n.value.elts) == 6]
-    r.need(len(verbs) == 1, "potential_verbs list")
-    H = None
-    got = [ast.unparse(e) for e in verbs[0].value.elts]
-    r.instance("verb order")
-    hv = got[0].split(".")[0] if got else "http"
-    r.check(got == [f"{hv}.get", f"{hv}.put", f"{hv}.post", f"{hv}.delete", f"{hv}.patch", f"{hv}.custom.path"], p, verbs[0].lineno, str(got),
-            "verbs must be tried in the order get, put, post, delete, patch, custom.path")
-    V = verbs[0].targets[0].id
-    pats = [n for n in ast.walk(fi.node) if isinstance(n, ast.Call) and ast.unparse(n.func) == "re.compile"]
+    from ..pymodel import nmatch
+    import re._parser as sre_parser
+    bb = nmatch(m, "next((tuple((FieldHeader(_H_) for _H_ in re.compile(_ANYRE_).findall(_VB_))) for _VB_ in "
+                   "[_ANYH_.get, _ANYH_.put, _ANYH_.post, _ANYH_.delete, _ANYH_.patch, _ANYH_.custom.path] if _VB_), ())", fi)
+    r.instance("verb order, first non-empty verb, all its variables in order")
+    r.check(bb is not None and bb["_ANYH_"] == "self.options.Extensions[annotations_pb2.http]", p, fi.node.lineno, "Method.field_headers",
+            "field_headers must be the variables (in order) of the FIRST non-empty uri among get, put, post, delete, patch, custom.path of the "
+            "method's http annotation, and () when there is none")
     r.instance("variable pattern")
-    r.check(len(pats) == 1 and isinstance(pats[0].args[0], ast.Constant) and pats[0].args[0].value == "{(.*?)[=}]", p, fi.node.lineno,
-            ast.unparse(pats[0]) if pats else "", "path variables are `{` name up to the first `=` or `}`")
-    node, b = find_match("(tuple((FieldHeader(_H_) for _H_ in _P_.findall(_VB_))) for _VB_ in _V_ if _VB_)", fi.node, {"_V_": V})
-    r.instance("first non-empty")
-    r.check(node is not None, p, fi.node.lineno, "generator over verbs", "only non-empty verbs are considered, each giving all its variables in order")
-    rets = [n for n in ast.walk(fi.node) if isinstance(n, ast.Return)]
-    r.check(len(rets) == 1 and pmatch("next(_G_, ())", rets[0].value) is not None, p, fi.node.lineno, ast.unparse(rets[0].value) if rets else "",
-            "the first non-empty verb wins; () when there is none")
+    ok = False
+    if bb is not None:
+        try:
+            lit = ast.literal_eval(bb["_ANYRE_"])
+            ok = isinstance(lit, str) and repr(list(sre_parser.parse(lit))) == repr(list(sre_parser.parse("{(.*?)[=}]")))
+        except Exception:
+            ok = False
+    r.check(ok, p, fi.node.lineno, f"path variable pattern {bb['_ANYRE_'] if bb else None}", "path variables are `{` name up to the first `=` or `}`")
     from .common_rules import per_segment_disambiguation
     ok, shown, dfi = per_segment_disambiguation("gapic.schema.wrappers.FieldHeader.disambiguated", "raw")
     r.instance("FieldHeader.disambiguated")
